@@ -1,1 +1,84 @@
-(* C01 *)
+(* C01 - literal template text is reproduced byte for byte.  Theorems only. *)
+From Coq Require Import Lia.
+From Ructe Require Import Nom NomFacts Utf8 Spacelike Expression TemplateExpr Template Emit RustLit
+                          ParserProofs SpaceProofs TextProofs RustLitProofs EmitProofs.
+Local Open Scope list_scope.
+
+Section C01.
+  Variable E : nt -> parser bytes.          (* the expression grammar, at any fuel *)
+  Hypothesis HE : forall x, good (E x).
+  Variable ln n : nat.
+  Notation TEp := (texpr_gram E ln (S n) TE).
+
+  (* a run of text -- any bytes other than @ { } forming valid UTF-8: quotes, backslashes, CR/LF,
+     NUL and every other control character included -- up to the next @ { } or the end of input
+     becomes one Text node holding exactly those bytes *)
+  Theorem text_run_capture : forall run rest : bytes,
+    run <> [] -> Forall (fun c => plain c = true) run -> utf8_valid run = true -> text_stop rest ->
+    TEp (run ++ rest) = Ok (TText run) rest.
+  Proof. exact (text_run_capture_lemma E ln n). Qed.
+
+  (* @@, @{ and @} followed by anything produce @, { and } and consume exactly two bytes *)
+  Theorem escape_tokens : forall r : bytes,
+    TEp (b "@@" ++ r) = Ok (TText (b "@")) r /\ TEp (b "@{" ++ r) = Ok (TText (b "{")) r /\ TEp (b "@}" ++ r) = Ok (TText (b "}")) r.
+  Proof. exact (escape_tokens_lemma E ln n). Qed.
+
+  (* a comment whose body has no "*@" (bodies ending in any number of stars included) ends at its
+     terminator whatever follows, and produces no output *)
+  Theorem comment_skipped : forall body rest : bytes, no_close body = true ->
+    TEp (b "@*" ++ body ++ b "*@" ++ rest) = Ok TComment rest /\ forall ue, write_code ue TComment = [].
+  Proof. intros body rest H. split; [exact (comment_node_lemma E ln n body rest H)|reflexivity]. Qed.
+
+  (* conversely, on EVERY input: a Text node is a slice of the source (or one of the escapes), so
+     no literal text is invented, reordered or altered by the parser *)
+  Theorem text_node_is_source_slice : forall i t r : bytes, TEp i = Ok (TText t) r ->
+    i = t ++ r \/ (exists c, In c [64%N; 123%N; 125%N] /\ t = [c] /\ i = 64%N :: c :: r).
+  Proof. exact (text_node_is_source_slice_lemma E ln n). Qed.
+End C01.
+
+(* the run of whitespace and comments after the declaration is skipped, up to the first byte that
+   is neither whitespace nor opens a comment -- and spacelike consumes nothing else *)
+Theorem leading_trim_only : forall s rest : bytes, layout s -> stops rest -> spacelike (s ++ rest) = Ok tt rest.
+Proof. exact spacelike_skips_lemma. Qed.
+
+(* the literal emitted for a Text node denotes exactly the text, for every valid UTF-8 text: the
+   b"..." arm for pure ASCII (every code point 0x00-0x7F), the "...".as_bytes() arm otherwise;
+   (RustLit.v is the model of rustc's literal lexer) *)
+Theorem text_literal_denotes_text : forall (ue : N -> bool) (t : bytes), utf8_valid t = true ->
+  exists lit tail, write_code ue (TText t) = b "_ructe_out_.write_all(" ++ lit ++ tail /\
+    (if is_ascii t then lex_bytestr_lit (lit ++ tail) = Some (t, tail) /\ tail = b ")?;" ++ nl
+     else lex_str_lit (lit ++ tail) = Some (t, tail) /\ tail = b ".as_bytes())?;" ++ nl).
+Proof.
+  intros ue t V. cbn [write_code]. unfold text_code. destruct (is_ascii t) eqn:A.
+  - exists (b "b""" ++ escape_ascii t ++ b """"), (b ")?;" ++ nl). split.
+    { change (b "_ructe_out_.write_all(b""") with (b "_ructe_out_.write_all(" ++ b "b""").
+      change (b """)?;") with (b """" ++ b ")?;"). now rewrite <- !app_assoc. }
+    split; [|reflexivity]. rewrite <- !app_assoc. apply bytestr_literal_roundtrip.
+    unfold is_ascii in A. rewrite forallb_forall in A. apply Forall_forall. intros x Hx. specialize (A x Hx).
+    apply N.ltb_lt in A. lia.
+  - exists (debug_str ue t), (b ".as_bytes())?;" ++ nl). split; [reflexivity|].
+    split; [|reflexivity]. now apply str_literal_roundtrip.
+Qed.
+
+(* the defects of the pinned commit, refuted on their witnesses *)
+Definition legacy_text_code (ue : N -> bool) (t : bytes) : bytes := b "b" ++ debug_str ue t.
+Lemma legacy_literal_refuted :
+  lex_bytestr_lit (legacy_text_code (fun _ => false) (b "ab" ++ [12%N] ++ b "cd") ++ b ")") = None.
+Proof. vm_compute. reflexivity. Qed.
+Lemma legacy_comment_refuted :
+  comment_tail_legacy (b " x **@B@* y *@C") = Ok tt (b "C") /\ comment_tail (b " x **@B@* y *@C") = Ok tt (b "B@* y *@C").
+Proof. vm_compute. split; reflexivity. Qed.
+
+Example control_characters_in_text :
+  write_code (fun _ => false) (TText (b "a" ++ [0; 12; 27; 127; 13; 10]%N ++ b "\""")) =
+  b "_ructe_out_.write_all(b""a\x00\x0c\x1b\x7f\r\n\\\"""")?;" ++ nl.
+Proof. vm_compute. reflexivity. Qed.
+
+Redirect "assumptions/C01.text_run_capture" Print Assumptions text_run_capture.
+Redirect "assumptions/C01.escape_tokens" Print Assumptions escape_tokens.
+Redirect "assumptions/C01.comment_skipped" Print Assumptions comment_skipped.
+Redirect "assumptions/C01.text_node_is_source_slice" Print Assumptions text_node_is_source_slice.
+Redirect "assumptions/C01.leading_trim_only" Print Assumptions leading_trim_only.
+Redirect "assumptions/C01.text_literal_denotes_text" Print Assumptions text_literal_denotes_text.
+Redirect "assumptions/C01.legacy_literal_refuted" Print Assumptions legacy_literal_refuted.
+Redirect "assumptions/C01.legacy_comment_refuted" Print Assumptions legacy_comment_refuted.
